@@ -88,7 +88,7 @@ var zzReadForms = []string{"variable", "var-statement", "parameter", "list-liter
 	"go-argument", "closure-result-after-defer", "two-targets-from-one-element", "variadic-parameter", "return-list",
 	"left-operand-of-binary-operator", "left-operand-of-comparison", "spread-assignment", "spread-var",
 	"value-ok-form", "spread-argument", "deferred-spread-argument", "switch-subject", "in-item", "map-literal-key", "indexed-container", "for-in-variable",
-	"left-operand-with-right-operand-shapes"}
+	"left-operand-with-right-operand-shapes", "indexed-typed-container", "sliced-typed-container", "typed-map-literal-key"}
 
 // ZZ_C10_read_is_a_value: container kind x receiving form; old and new
 // payloads symbolic.
@@ -260,6 +260,27 @@ func ZZ_C10_read_is_a_value() {
 				want = []int64{0}
 			}
 		}
+		zz.Assume(v0 != w)
+	case 27, 28:
+		// tt[0][f()] and tt[0][f():] on a typed container of containers: the inner
+		// container is the one tt[0] held before f ran
+		if ck != 0 {
+			return
+		}
+		e.Define("tt", [][]int64{{v0}, {v1}})
+		if form == 27 {
+			src = "[tt[0][func() { tt[0] = tt[1]; return 0 }()]]"
+		} else {
+			src = "[tt[0][func() { tt[0] = tt[1]; return 0 }():][0]]"
+		}
+		want = []int64{v0}
+		wantC0 = v0
+		zz.Assume(v0 != v1)
+	case 29:
+		// a typed map literal reads its key before the value operand runs
+		e.Define("vold", v0)
+		src = "m = map[int64]int64{" + p0 + ": func() { " + p0 + " = wnew; return 1 }()}; [m[vold] ?? 0]"
+		want = []int64{1}
 		zz.Assume(v0 != w)
 	case 16, 17:
 		// `x, y = c` spreads a slice over its targets
@@ -588,4 +609,31 @@ func ZZ_C10_failed_operation_leaves_containers() {
 		// the operation failed: nothing it shares storage with has changed
 		zz.Assertf(okA && okB && a == v && b == w, "C10.failed-operation/an-error-leaves-every-container-unchanged/"+f.name, f.src)
 	}
+}
+
+// ZZ_C10_string_bytes: indexing a string reads the addressed byte, as s[i:i+1]
+// does and as the same index on a Go string does - also in strings whose
+// characters take several bytes (concrete pool: the engine's symbolic strings
+// are ASCII).
+func ZZ_C10_string_bytes() {
+	pool := []string{"é", "日本", "\xff\xfe", "aé", "héllo", "\x80", "a\u00e9b"}
+	str := pool[zz.Choose(len(pool))]
+	i := zz.Choose(len(str))
+	e := env.NewEnv()
+	e.Define("s", str)
+	e.Define("i", int64(i))
+	res, err := Execute(e, &Options{Debug: false}, "[s[i], s[i:i+1]]")
+	zz.Assertf(err == nil, "C10.string-bytes/in-range-read-is-no-error", str)
+	if err != nil {
+		return
+	}
+	l, ok := res.([]interface{})
+	zz.Assertf(ok && len(l) == 2, "C10.string-bytes/result-shape", str)
+	if !ok || len(l) != 2 {
+		return
+	}
+	got, _ := l[0].(string)
+	sl, _ := l[1].(string)
+	zz.Assertf(got == str[i:i+1], "C10.string-bytes/index-reads-the-addressed-byte", str)
+	zz.Assertf(sl == str[i:i+1], "C10.string-bytes/slice-reads-the-addressed-bytes", str)
 }
